@@ -101,12 +101,12 @@ def run_case(case):
                           what="%s: the interpolator for complex data (dtype=%r) hands out other quadrature weights than the real one (max difference %.3g, tol %.3g)"
                           % (name, spelling, float(np.abs(qc - q).max()) if qc.shape == q.shape else float("nan"), tolc), witness=wit0)
         ib = np.concatenate(([0], np.cumsum(rs.randint(1, 4, size=len(breaks) - 1)))) if not (cfg.get("fast") or cfg.get("kind") == "uniform") else np.arange(len(breaks)) * 2
-        kf = spl.make_knots(ib.astype(float), p, bool(basis.periodic))
+        kf = spl.make_knots(ib.astype(float), int(p), bool(basis.periodic))
         flag = bool(getattr(basis, "cubic_uniform", False)) or bool(cfg.get("uniform_flag"))
         variants = {"float": kf, "int64": kf.astype(np.int64), "int32": kf.astype(np.int32), "list-of-int": [int(x) for x in kf]}
         got = {}
         for vn, kts in variants.items():
-            bv = spl.BSplines(kts, p, bool(basis.periodic), flag)
+            bv = spl.BSplines(kts, int(p), bool(basis.periodic), flag)
             got[vn] = (np.array(bv.integrals, dtype=float, copy=True), np.array(spl.SplineInterpolator1D(bv).get_quadrature_coefficients(), dtype=float, copy=True))
         ev["integer_knot_spaces"] = ev.get("integer_knot_spaces", 0) + 1
         for vn in ("int64", "int32", "list-of-int"):
